@@ -235,6 +235,9 @@ Other(id, x, y) == IF NumOf(id).p = "val" /\ DigitsOf(id) = DigitsOf(x) THEN y E
 Changes ==
   {[what |-> "value", d |-> [desc EXCEPT !.value = Other(@, "1f4", "a")]],
    [what |-> "value-presence", d |-> [desc EXCEPT !.value = IF NumOf(@).p = "val" THEN "absent" ELSE "0"]],
+   \* an explicit zero and an absent optional field are different signed contents
+   [what |-> "nid-presence", d |-> [desc EXCEPT !.nid = IF NumOf(@).p = "val" THEN "absent" ELSE "0"]],
+   [what |-> "nonce-presence", d |-> [desc EXCEPT !.nonce = IF NumOf(@).p = "val" THEN "absent" ELSE "0"]],
    [what |-> "nid", d |-> [desc EXCEPT !.nid = Other(@, "1", "a")]],
    [what |-> "nonce", d |-> [desc EXCEPT !.nonce = Other(@, "1", "a")]],
    [what |-> "stepLimit", d |-> [desc EXCEPT !.step = Other(@, "1f4", "icx")]],
